@@ -1216,6 +1216,7 @@ struct Explorer<'a> {
     /// site -> set of held kind-sets observed statically (for conformance)
     site_held: BTreeMap<usize, BTreeSet<Vec<(Kind, bool)>>>,
     stmt_counter: usize,
+    capped: usize,
 }
 
 impl<'a> Explorer<'a> {
@@ -1227,9 +1228,11 @@ impl<'a> Explorer<'a> {
             }
         }
         while let Some((f, ctx)) = self.queue.pop_front() {
+            #[allow(unused_mut)]
             let mut held: Vec<Held> = ctx.iter().map(|(k, w)| Held { kind: k.clone(), write: *w, var: None, depth: 0, stmt: 0, site: None, inherited: true }).collect();
             let body = self.prog.funcs[f].body.clone();
-            self.walk(&body, &mut held, 1, 0, f, &ctx);
+            held.sort();
+            self.walk(&body, vec![held], 1, 0, f, &ctx);
         }
     }
 
@@ -1251,97 +1254,118 @@ impl<'a> Explorer<'a> {
         (cur.0, chain, precise)
     }
 
-    fn walk(&mut self, nodes: &[Node], held: &mut Vec<Held>, depth: usize, stmt: usize, f: usize, ctx: &Ctx) {
+    /// disjunctive walk: `states` is the set of possible held-lock lists at this point (one per
+    /// path class); returns the set after the nodes
+    fn walk(&mut self, nodes: &[Node], mut states: Vec<Vec<Held>>, depth: usize, stmt: usize, f: usize, ctx: &Ctx) -> Vec<Vec<Held>> {
         for n in nodes {
+            if states.is_empty() {
+                break;
+            }
             match n {
                 Node::Acq { site, bind } => {
-                    self.transitions += 1;
-                    let s = &self.prog.sites[*site];
-                    let mut hs: Vec<(Kind, bool)> = held.iter().map(|h| (h.kind.clone(), h.write)).collect();
-                    hs.sort();
-                    hs.dedup();
-                    self.site_held.entry(*site).or_default().insert(hs.clone());
-                    for h in held.iter() {
-                        let class = match (h.kind.rank(), s.kind.rank()) {
-                            (Some(a), Some(b)) if a > b => Some("inversion"),
-                            (Some(a), Some(b)) if a == b && (h.write || s.write) => Some("reacquire"),
-                            _ => None,
-                        };
-                        if let Some(class) = class {
-                            let (root, chain, precise) = self.chain_of(f, ctx);
-                            self.findings.push(Finding {
-                                class: class.to_string(),
-                                held: h.kind.clone(),
-                                held_write: h.write,
-                                held_site: h.site,
-                                acquired_site: *site,
-                                root,
-                                chain,
-                                precise,
-                                all_held: hs.clone(),
-                            });
+                    let s = self.prog.sites[*site].clone();
+                    for held in states.iter_mut() {
+                        self.transitions += 1;
+                        let mut hs: Vec<(Kind, bool)> = held.iter().map(|h| (h.kind.clone(), h.write)).collect();
+                        hs.sort();
+                        hs.dedup();
+                        self.site_held.entry(*site).or_default().insert(hs.clone());
+                        for h in held.iter() {
+                            let class = match (h.kind.rank(), s.kind.rank()) {
+                                (Some(a), Some(b)) if a > b => Some("inversion"),
+                                (Some(a), Some(b)) if a == b && (h.write || s.write) => Some("reacquire"),
+                                _ => None,
+                            };
+                            if let Some(class) = class {
+                                let (root, chain, precise) = self.chain_of(f, ctx);
+                                self.findings.push(Finding {
+                                    class: class.to_string(),
+                                    held: h.kind.clone(),
+                                    held_write: h.write,
+                                    held_site: h.site,
+                                    acquired_site: *site,
+                                    root,
+                                    chain,
+                                    precise,
+                                    all_held: hs.clone(),
+                                });
+                            }
                         }
-                    }
-                    match bind {
-                        Bind::Discard => {}
-                        Bind::Var(v) => held.push(Held { kind: s.kind.clone(), write: s.write, var: Some(v.clone()), depth, stmt: 0, site: Some(*site), inherited: false }),
-                        Bind::Temp => held.push(Held { kind: s.kind.clone(), write: s.write, var: None, depth, stmt, site: Some(*site), inherited: false }),
+                        match bind {
+                            Bind::Discard => {}
+                            Bind::Var(v) => held.push(Held { kind: s.kind.clone(), write: s.write, var: Some(v.clone()), depth, stmt: 0, site: Some(*site), inherited: false }),
+                            Bind::Temp => held.push(Held { kind: s.kind.clone(), write: s.write, var: None, depth, stmt, site: Some(*site), inherited: false }),
+                        }
                     }
                 }
                 Node::Drop { var } => {
-                    if let Some(i) = held.iter().rposition(|h| h.var.as_deref() == Some(var.as_str())) {
-                        held.remove(i);
+                    for held in states.iter_mut() {
+                        if let Some(i) = held.iter().rposition(|h| h.var.as_deref() == Some(var.as_str())) {
+                            held.remove(i);
+                        }
                     }
                 }
                 Node::Call { callees, precise, line, .. } => {
-                    let mut c: Ctx = held.iter().map(|h| (h.kind.clone(), h.write)).collect();
-                    c.sort();
-                    c.dedup();
-                    for &cal in callees {
-                        self.transitions += 1;
-                        let k = (cal, c.clone());
-                        if self.seen.insert(k.clone()) {
-                            self.parent.insert(k.clone(), (f, ctx.clone(), *line, *precise && callees.len() == 1));
-                            self.queue.push_back(k);
+                    for held in states.iter() {
+                        let mut c: Ctx = held.iter().map(|h| (h.kind.clone(), h.write)).collect();
+                        c.sort();
+                        c.dedup();
+                        for &cal in callees {
+                            self.transitions += 1;
+                            let k = (cal, c.clone());
+                            if self.seen.insert(k.clone()) {
+                                self.parent.insert(k.clone(), (f, ctx.clone(), *line, *precise && callees.len() == 1));
+                                self.queue.push_back(k);
+                            }
                         }
                     }
                 }
                 Node::Scope(inner) => {
                     let d = depth + 1;
-                    self.walk(inner, held, d, stmt, f, ctx);
-                    held.retain(|h| h.inherited || h.depth < d);
+                    states = self.walk(inner, states, d, stmt, f, ctx);
+                    for held in states.iter_mut() {
+                        held.retain(|h| h.inherited || h.depth < d);
+                    }
                 }
                 Node::Stmt(inner) => {
                     self.stmt_counter += 1;
                     let sid = self.stmt_counter;
-                    self.walk(inner, held, depth, sid, f, ctx);
-                    held.retain(|h| h.inherited || h.var.is_some() || h.stmt != sid);
+                    states = self.walk(inner, states, depth, sid, f, ctx);
+                    for held in states.iter_mut() {
+                        held.retain(|h| h.inherited || h.var.is_some() || h.stmt != sid);
+                    }
                 }
                 Node::Alt(alts) => {
-                    let mut results: Vec<Vec<Held>> = vec![];
+                    if alts.is_empty() {
+                        continue;
+                    }
+                    let mut out: Vec<Vec<Held>> = vec![];
                     for (a, div) in alts {
-                        let mut h2 = held.clone();
-                        self.walk(a, &mut h2, depth, stmt, f, ctx);
+                        let r = self.walk(a, states.clone(), depth, stmt, f, ctx);
                         if !*div {
-                            results.push(h2);
+                            out.extend(r);
                         }
                     }
-                    if !results.is_empty() {
-                        // must-hold after the join: held on every continuing branch
-                        let first = results[0].clone();
-                        let joined: Vec<Held> = first.into_iter().filter(|h| results.iter().all(|r| r.contains(h))).collect();
-                        *held = joined;
-                    }
+                    states = out;
                 }
                 Node::Loop(inner) => {
-                    let mut h2 = held.clone();
-                    self.walk(inner, &mut h2, depth, stmt, f, ctx);
-                    // after the loop: what was held before and is still held after one iteration
-                    held.retain(|h| h2.contains(h));
+                    // zero, one and two iterations
+                    let s1 = self.walk(inner, states.clone(), depth, stmt, f, ctx);
+                    let s2 = self.walk(inner, s1.clone(), depth, stmt, f, ctx);
+                    states.extend(s1);
+                    states.extend(s2);
                 }
                 Node::Spawn(_) => {}
             }
+            // canonicalise
+            states.sort();
+            states.dedup();
+            if states.len() > 64 {
+                self.capped += 1;
+                states.truncate(64);
+            }
         }
+        states
     }
 }
 
@@ -1357,7 +1381,7 @@ fn rs_files(dir: &Path) -> Vec<PathBuf> {
         .map(|e| e.path().to_path_buf())
         .filter(|p| {
             let s = p.to_string_lossy();
-            !s.contains("/test/") && !s.contains("/tests/") && !s.contains("/benches/") && !s.ends_with("/test.rs")
+            !s.contains("/test/") && !s.contains("/tests/") && !s.contains("/benches/") && !s.ends_with("/test.rs") && !s.contains("/verif_")
         })
         .collect();
     v.sort();
@@ -1467,7 +1491,7 @@ fn main() {
 
     // explore: every function is a root with nothing held
     let roots: Vec<usize> = (0..prog.funcs.len()).collect();
-    let mut ex = Explorer { prog: &prog, seen: BTreeSet::new(), parent: BTreeMap::new(), queue: VecDeque::new(), findings: vec![], transitions: 0, site_held: BTreeMap::new(), stmt_counter: 0 };
+    let mut ex = Explorer { prog: &prog, seen: BTreeSet::new(), parent: BTreeMap::new(), queue: VecDeque::new(), findings: vec![], transitions: 0, site_held: BTreeMap::new(), stmt_counter: 0, capped: 0 };
     ex.run(&roots);
 
     // wasm gate: every acquisition of a shared lock reachable from an exported wasm function
@@ -1475,7 +1499,7 @@ fn main() {
     let mut wasm_ungated: Vec<serde_json::Value> = vec![];
     {
         let wroots: Vec<usize> = prog.funcs.iter().enumerate().filter(|(_, f)| f.exported_wasm).map(|(i, _)| i).collect();
-        let mut wx = Explorer { prog: &prog, seen: BTreeSet::new(), parent: BTreeMap::new(), queue: VecDeque::new(), findings: vec![], transitions: 0, site_held: BTreeMap::new(), stmt_counter: 0 };
+        let mut wx = Explorer { prog: &prog, seen: BTreeSet::new(), parent: BTreeMap::new(), queue: VecDeque::new(), findings: vec![], transitions: 0, site_held: BTreeMap::new(), stmt_counter: 0, capped: 0 };
         wx.run(&wroots);
         for (site, sets) in wx.site_held.iter() {
             let s = &prog.sites[*site];
@@ -1546,6 +1570,7 @@ fn main() {
         "unparsed_macro_sites": prog.unparsed_macro_sites.iter().map(|(f, l, t)| json!({"file": f, "line": l, "what": t})).collect::<Vec<_>>(),
         "states": ex.seen.len(),
         "transitions": ex.transitions,
+        "path_state_caps_hit": ex.capped,
         "findings": fjson,
         "wasm_ungated": wasm_ungated,
         "sites": sites,
